@@ -51,4 +51,14 @@ def obligations(tier):
     obs.append(Ob("fe-cswap", "C05/x25519_k.c", units=COMMON + ["crypto_core/ed25519/ref10/ed25519_ref10.c"], stubs=["misuse.c", "libc.c", "x86_builtins.c"],
                   defs={"PART": 4}, unwind=40, timeout=600, family="x25519-kernels", nochecks=True,
                   desc="fe25519_cswap exchanges its operands iff the selector is 1", bounds="all 64-bit limbs, selector in {0,1}"))
+    # box precomputation = HSalsa20 / HChaCha20 (0^16, X25519(sk, pk)) and what follows from it (the C01 box harness):
+    # the property names the derivation, so the sender forms, the recipient round trip and the X25519-failure path of
+    # both cipher variants are part of this property's check as well
+    import re as _re
+    from obligations import C01 as _c01
+    for o in _c01.obligations(tier):
+        if _re.match(r"box-(xsalsa20|xchacha20)poly1305-(p1-m17|p2-m17|p1-dhfail)$", o.name):
+            o.tier = "quick"
+            o.family = "box-beforenm"
+            obs.append(o)
     return obs
